@@ -20,13 +20,13 @@ func pow10(k int) *big.Int {
 const maxAmount = 1 << 53 // supported range of amounts (JSON bound)
 
 // VerifC39Fixed8: Fixed8Converter for every balance precision 0..18 and every
-// amount 0 <= n < 2^53 (the amount is a 64-bit symbolic word; math/big is
+// amount -2^53 < n < 2^53 (the amount is a 64-bit symbolic word; math/big is
 // modelled in the integer theory, Int64() as two's-complement truncation).
 func VerifC39Fixed8() {
 	p := vrt.Choice("precision", 19)
 	ps := strconv.Itoa(p)
 	n := vrt.I64("n")
-	vrt.Assume(n >= 0 && n < maxAmount)
+	vrt.Assume(n > -maxAmount && n < maxAmount)
 	c := NewConverter(uint32(p))
 	b := c.ToBalancePrecision(n)
 
@@ -42,7 +42,8 @@ func VerifC39Fixed8() {
 		vrt.Assert(big.NewInt(b).Cmp(exact) == 0, "ToBalancePrecision is exact whenever the result fits int64, p="+ps)
 		back := c.ToFixed8(b)
 		vrt.Assert(back <= n, "round trip never creates value, p="+ps)
-		vrt.Assert(back >= 0, "round trip keeps the sign, p="+ps)
+		vrt.Assert(n < 0 || back >= 0, "round trip keeps the sign, p="+ps)
+		vrt.Assert(n >= 0 || back < 0, "round trip keeps the sign of a negative amount, p="+ps)
 		if p >= 8 {
 			vrt.Assert(back == n, "round trip is exact when the target precision is at least the source precision, p="+ps)
 		} else {
@@ -52,7 +53,8 @@ func VerifC39Fixed8() {
 		}
 	}
 	vrt.Assert(fits, "amounts below 2^53 never overflow int64 in ToBalancePrecision, p="+ps)
-	vrt.Assert(b >= 0, "ToBalancePrecision never changes sign for amounts below 2^53, p="+ps)
+	vrt.Assert(n < 0 || b >= 0, "ToBalancePrecision never changes sign for amounts below 2^53, p="+ps)
+	vrt.Assert(n >= 0 || b < 0, "ToBalancePrecision never changes the sign of a negative amount, p="+ps)
 	vrt.Reach("end")
 }
 
